@@ -964,7 +964,7 @@ def do_call(world, ws, call, at):
             fr = [x for x in world.log[nlog:] if x['k'] == 'wr' and x.get('what') == 'frame']
             raw = world.last_app_payload
             try:
-                ok = raw is not None and json.loads(raw.decode('utf-8')) == jobj
+                ok = raw is not None and json.loads(raw.decode('utf-8')) == jobj.obj and type(json.loads(raw.decode('utf-8'))) is type(jobj.obj)
             except Exception:
                 ok = False
             exp = raw if ok else b'<not the JSON text of the object>'
